@@ -26,7 +26,27 @@ Amt012 == {0, 1, 2}
 Amt01 == {0, 1}
 Amt013 == {0, 1, 3}
 Amt03 == {0, 3}
-IO1 == {C(1, 1)}
-IO2 == {C(1, 0), C(0, 1)}
-IO3 == {C(1, 0), C(0, 1), C(2, 1)}
+In2(a, x) == [a |-> a, amt |-> x]
+\* multi-send alphabets. Amount sets:
+X3 == {C(1, 0), C(0, 1), C(1, 1)}
+X4 == {C(1, 0), C(0, 1), C(1, 1), C(2, 0)}
+XS == {C(1, 0), C(0, 1), C(3, 1)}
+\* quick: inputs from a (and b), outputs to b (and coll)
+InsQ(X) == {<<In2("a", x)>> : x \in X} \cup {<<In2("a", p[1]), In2("b", p[2])>> : p \in X \X X}
+OutsQ(X) == {<<In2("b", x)>> : x \in X} \cup {<<In2("b", p[1]), In2("coll", p[2])>> : p \in X \X X}
+InsQ3 == InsQ(X3)
+OutsQ3 == OutsQ(X3)
+InsQS == InsQ(XS)
+OutsQS == OutsQ(XS)
+\* thorough / simulation: more address patterns
+InsT(X) == {<<In2(i, x)>> : i \in {"a", "b", "coll"}, x \in X} \cup {<<In2("a", p[1]), In2("b", p[2])>> : p \in X \X X}
+             \cup {<<In2("b", p[1]), In2("a", p[2])>> : p \in X \X X}
+OutsT(X) == {<<In2(o, x)>> : o \in {"a", "b", "coll"}, x \in X} \cup {<<In2("b", p[1]), In2("coll", p[2])>> : p \in X \X X}
+             \cup {<<In2("a", p[1]), In2("a", p[2])>> : p \in X \X X}
+InsT3 == InsT(X3)
+OutsT3 == OutsT(X3)
+InsT4 == InsT(X4)
+OutsT4 == OutsT(X4)
+InsTS == InsT(XS)
+OutsTS == OutsT(XS)
 =============================================================================
